@@ -36,7 +36,8 @@ class Check(PropertyCheck):
                   "F-C53a: Flow.backup() keeps an existing backup); the full statement is refuted by "
                   "stop_restores_queued_counterexample. trusted: asyncio.Queue is FIFO; a flow's editable state is "
                   "abstracted to response/error/is_replay + an edit counter; flow.live is modelled as set at the start "
-                  "and cleared at the end of a replay of the flow. stop_replay while a queued flow has a replay running over "
+                  "and cleared at the end of a replay of the flow. a replay that fails after the response headers had arrived leaves a partial "
+                  "flow.response next to flow.error — 'has a response' is compared for flows without error only. stop_replay while a queued flow has a replay running over "
                   "an open server connection is outside the model (findings F-C53b: revert raises, F-C53c: revert silently "
                   "rewrites the live connection); such cases are not compared with the model, their oracle failures are "
                   "excused only where known() recomputes exactly the predicted wrong outcome (known_selftest pins positives "
@@ -44,7 +45,9 @@ class Check(PropertyCheck):
     technique = "Lean 4 proof (invariants over all histories) + virtual-time correspondence with the real addon and replay handler"
     rule = ("scripts over {start_replay(list of flows incl. unreplayable kinds, duplicates), stop_replay, user edit, "
             "client_replay_concurrency switched 1 <-> -1 at idle and busy moments (initial value 1 or -1), server "
-            "connect ok/refuse, respond, close, clock}; flows of 10 kinds. distinct = distinct script; non-trivial = at least "
+            "connect ok/refuse, respond (plain, or with interim 100/102/103 responses in the same or in separate segments, "
+            "Content-Length / chunked / close-delimited / 204 bodies, keep-alive or close, death in mid-answer), close, clock}; "
+            "flows of 11 kinds. distinct = distinct script; non-trivial = at least "
             "one flow was queued.")
     budget = {"quick": 300, "thorough": 8000}
     time_budget = {"quick": 30, "thorough": 600}
@@ -163,7 +166,18 @@ class Check(PropertyCheck):
                 elif r < 0.35: steps.append(["stop"])
                 elif r < 0.45: steps.append(["edit", rng.randint(0, nf - 1)])
                 elif r < 0.7: steps.append(["connect", "ok" if rng.random() < 0.75 else "refuse"])
-                elif r < 0.88: steps.append(["respond"])
+                elif r < 0.88:
+                    if rng.random() < 0.5: steps.append(["respond"])
+                    else:
+                        # the origin's answer: interim responses (same / separate segments), body framing, keep-alive or close,
+                        # death in mid-answer
+                        spec = {}
+                        if rng.random() < 0.6: spec["interim"] = [rng.choice([100, 102, 103]) for _ in range(rng.randint(1, 3))]
+                        if rng.random() < 0.5: spec["split"] = True
+                        spec["body"] = rng.choice(["cl", "chunked", "eof", "none"])
+                        if rng.random() < 0.3: spec["close"] = True
+                        if rng.random() < 0.12: spec["cut"] = True
+                        steps.append(["respond", spec])
                 elif r < 0.95: steps.append(["srv_eof"])
                 elif r < 0.97: steps.append(["tick", rng.choice([1, 30])])
                 else: steps.append(["opt", rng.choice([1, -1])])
